@@ -125,20 +125,21 @@ def samplerRun (maxInt : Int) : Nat → Samp → List (Option Int × Int) → Li
 def newSamp (k : Int) : Samp := { i := 0, first := true, k := k }
 
 /-- the reservoir loop shared by `rSample` and `rSampleSlice`: consumes decisions until `stop`;
-`none` = index out of range. `out` is the reservoir of positions. -/
-def reservoirLoop (stop : Int → Bool) : List (Int × Int) → List Int → Option (List Int)
+`none` = index out of range. `out` is the reservoir of positions. `stores` = the loop body has the
+store `out[replace] = …` (generated: `rsStores`, `rssStores`); without it the reservoir stays as made. -/
+def reservoirLoop (stop : Int → Bool) (stores : Bool) : List (Int × Int) → List Int → Option (List Int)
   | [], out => some out
   | (next, replace) :: ds, out =>
     if stop next then some out else
-    match setI out replace next with
+    match (if stores then setI out replace next else some out) with
     | none => none
-    | some out' => reservoirLoop stop ds out'
+    | some out' => reservoirLoop stop stores ds out'
 
 /-- `rSample` before the final shuffle: positions of `[0,n)` held by the reservoir; `make([]int, k)`
 is zero-filled. -/
 def rSample (n k : Int) (ds : List (Int × Int)) : Option (List Int) :=
   if rsMake n k < 0 then none else
-  match reservoirLoop (fun next => rsStop next n) ds (List.replicate (rsMake n k).toNat 0) with
+  match reservoirLoop (fun next => rsStop next n) rsStores ds (List.replicate (rsMake n k).toNat 0) with
   | none => none
   | some out =>
     if rsTrunc n k then
@@ -149,7 +150,7 @@ def rSample (n k : Int) (ds : List (Int × Int)) : Option (List Int) :=
 (`-1` = still the zero value). -/
 def rSampleSlicePos (n k : Int) (ds : List (Int × Int)) : Option (List Int) :=
   if k < 0 then none else
-  match reservoirLoop (fun next => rssStop next n) ds (List.replicate k.toNat (-1)) with
+  match reservoirLoop (fun next => rssStop next n) rssStores ds (List.replicate k.toNat (-1)) with
   | none => none
   | some out =>
     if rssTrunc n k then
@@ -157,24 +158,31 @@ def rSampleSlicePos (n k : Int) (ds : List (Int × Int)) : Option (List Int) :=
     else some out
 
 /-- the pull loop shared by `rSampleIterator` and `rSampleStream`: item number `i` (0-based) of
-the source is stored when `take i next`; returns the reservoir of positions and the final `i`. -/
-def pullLoop (take : Int → Int → Bool) (n : Int) :
+the source is stored when `take i next`; returns the reservoir of positions and the final `i`.
+`stores` = the taken branch has the store `out[replace] = item` (generated: `rsiStores`, `rstStores`);
+`incs` = the number of `i++` in the inner loop body (generated: `rsiIncs`, `rstIncs`): the mirrored loop
+has two, one in the taken branch before its `break` and one at the end of the body; with any other
+count the item counter is not the one modelled here (`none`). -/
+def pullLoop (take : Int → Int → Bool) (stores : Bool) (incs : Nat) (n : Int) :
     Nat → List (Int × Int) → Int → List Int → Option (List Int × Int)
   | 0, _, i, out => some (out, i)
   | _, [], i, out => some (out, i)
   | fuel + 1, (next, replace) :: ds, i, out =>
     if i ≥ n then some (out, i)            -- the source is exhausted
+    else if incs ≠ 2 then none
     else if take i next then
-      match setI out replace i with
+      match (if stores then setI out replace i else some out) with
       | none => none
-      | some out' => pullLoop take n fuel ds (i + 1) out'
-    else pullLoop take n fuel ((next, replace) :: ds) (i + 1) out
+      | some out' => pullLoop take stores incs n fuel ds (i + 1) out'
+    else pullLoop take stores incs n fuel ((next, replace) :: ds) (i + 1) out
 
 /-- `rSampleIterator` / `rSampleStream` before the final shuffle on a source of `n` items -/
 def rSampleIterPos (stream : Bool) (n k : Int) (ds : List (Int × Int)) : Option (List Int) :=
   if k < 0 then none else
   let take := fun i next => if stream then rstTake i next else rsiTake i next
-  match pullLoop take n (n.toNat + ds.length + 1) ds 0 (List.replicate k.toNat (-1)) with
+  let stores := if stream then rstStores else rsiStores
+  let incs := if stream then rstIncs else rsiIncs
+  match pullLoop take stores incs n (n.toNat + ds.length + 1) ds 0 (List.replicate k.toNat (-1)) with
   | none => none
   | some (out, i) =>
     let tr := if stream then rstTrunc i k else rsiTrunc i k
